@@ -143,9 +143,21 @@ def k_assign_history(ctx, w, seed):
     f = U.UnsignedByteField(v, w)
     ops = []
     for step in range(hist_len(r, 2, 8)):
-        op = r.choice(("hash", "dict", "assign_int", "assign_bytes", "assign_bytearray_long", "assign_bytearray_exact", "refused_int", "refused_bytes", "eq"))
+        op = r.choice(("hash", "dict", "assign_int", "assign_bytes", "assign_bytearray_long", "assign_bytearray_exact", "refused_int", "refused_bytes", "eq", "rewidth_then_assign"))
         ops.append(op)
-        if op == "hash":
+        if op == "rewidth_then_assign":
+            # the width changed through its public setter, then a value assigned that only the new width can hold (after the
+            # assignment the field is a field of the new width in every view)
+            w2 = r.choice([x for x in (1, 2, 4, 8) if x != w] or [w])
+            ok, e = attempt(setattr, f, "byte_len", w2)
+            if not ok:
+                continue
+            w = w2
+            v = r.choice(((1 << 8 * w) - 1, 1 << (8 * w - 1), rand_uint(r, 8 * w)))
+            ok, e = attempt(setattr, f, "value", v if r.random() < 0.5 else v.to_bytes(w, "big"))
+            if not ctx.check("field.assign_history", ok, "assignment_after_width_change_refused", f"w={w}", dict(case, ops=ops), error=repr(e), value=v):
+                return
+        elif op == "hash":
             hash(f)
         elif op == "dict":
             _ = {f: 1}[f]
